@@ -556,6 +556,28 @@ def datagram_sequence_sinks(ctx: Any, scope: List[FuncInfo]) -> List[Tuple[FuncI
                 return True
             if depth > 0 and e.id not in f.params:
                 return any(v is not None and tainted(f, v, depth - 1) for v in local_defs(f).get(e.id, []))
+        # a list assembled from such lists can be empty as well: a comprehension whose innermost source is one of them, a copy,
+        # a concatenation
+        if isinstance(e, (ast.ListComp, ast.SetComp, ast.GeneratorExp)):
+            bound = {x.id: g.iter for g in e.generators for x in ast.walk(g.target) if isinstance(x, ast.Name)}
+
+            def src_tainted(it: ast.AST, d: int = 3) -> bool:
+                if tainted(f, it, depth):
+                    return True
+                if d > 0:
+                    for x in ast.walk(it):
+                        if isinstance(x, ast.Name) and x.id in bound and src_tainted(bound[x.id], d - 1):
+                            pass
+                    # `for msg in msgs for q in msg._questions`: the inner source is an attribute of an outer loop variable
+                    if isinstance(it, ast.Attribute) and it.attr in _DGRAM_SEQ_ATTRS:
+                        return True
+                return False
+
+            return any(src_tainted(g.iter) for g in e.generators)
+        if isinstance(e, ast.Call) and isinstance(e.func, ast.Name) and e.func.id in ('list', 'tuple', 'sorted', 'reversed') and len(e.args) == 1:
+            return tainted(f, e.args[0], depth)
+        if isinstance(e, ast.BinOp) and isinstance(e.op, ast.Add):
+            return tainted(f, e.left, depth) and tainted(f, e.right, depth)
         return False
 
     changed = True
